@@ -21,6 +21,7 @@ import (
 	"sort"
 	"strings"
 	"sync"
+	"time"
 
 	"verifharness/core"
 	"verifharness/peer"
@@ -595,6 +596,7 @@ func serverScripts(cfg peer.Policy, quick bool) []spec {
 const emitResumed = true
 
 func gen(c *core.Ctx) error {
+	t0 := time.Now()
 	peer.Quiet()
 	lists := [][]string{{"CLAIMTOBE"}, {"FS"}, {"FS", "CLAIMTOBE"}, {"CLAIMTOBE", "PASSWORD"}, {"PASSWORD", "CLAIMTOBE", "FS"},
 		{"NONE"}, {"NONE", "CLAIMTOBE"}, {"KERBEROS", "BOGUS", "CLAIMTOBE"}}
@@ -706,8 +708,11 @@ func gen(c *core.Ctx) error {
 	for _, k := range ks {
 		c.Note(fmt.Sprintf("oracle failures %s: %d", k, fails[k]))
 	}
+	t1 := time.Now()
 	genResumed(c, bt, emitResumed)
+	t2 := time.Now()
 	genHonestPairs(c, bt)
+	c.Note(fmt.Sprintf("timing: scripted %.1fs resumed %.1fs honest %.1fs", t1.Sub(t0).Seconds(), t2.Sub(t1).Seconds(), time.Since(t2).Seconds()))
 	c.Rule("on every successful handshake against a scripted peer: Authentication=REQUIRED => an own-listed method ran to success as seen by the peer; Encryption/Integrity=REQUIRED => Stream.IsEncrypted and the next bytes written are not cleartext on the wire; reported Encryption == IsEncrypted == not-cleartext; reported Authentication == an exchange succeeded, reported NegotiatedAuth == that method; and (error, reported fields, IsEncrypted, exchanges seen) == Model/Handshake.v")
 	c.Exhaustive(false)
 	c.Assume("scripted peers serve CLAIMTOBE and the PASSWORD stub only; a peer that selects another method goes away")
